@@ -105,6 +105,10 @@ func runMiniGoSpec(c *Ctx, progs []*Prog, maxCh int, tag string) *mgBatch {
 	sem := make(chan struct{}, 4)
 	for _, p := range progs {
 		b.Sources[p.ID] = p.Source(false, nil)
+		if os.Getenv("VERIF_KEEP_WORK") != "" {
+			os.MkdirAll(filepath.Join(c.Work, "sources"), 0o755)
+			os.WriteFile(filepath.Join(c.Work, "sources", p.ID+".go"), []byte(b.Sources[p.ID]), 0o644)
+		}
 	}
 	for ci := 0; ci < n; ci++ {
 		go func(ci int) {
